@@ -490,6 +490,7 @@ inductive Ev where
   | reg (n : Nat) (r : Rec)
   | look (n : Nat) (tid : String)
   | rem (n : Nat) (tid : String)
+  | remDead (n : Nat) (tid : String)   -- RemoveWaitingTunnel called with a cancelled / expired context (node shutdown)
   | open_ (n : Nat) (r : Rec)
   | endB (n : Nat) (tid : String)
   | adv (d : Nat)        -- time passes everywhere
@@ -509,6 +510,9 @@ def step (cfg : Cfg) (w : World) : Ev → World × Res
   | .reg n r => registerWaitingTunnel cfg w n r
   | .look n tid => lookupWaitingTunnel cfg w n tid
   | .rem n tid => removeWaitingTunnel cfg w n tid
+  -- the removal does not depend on the caller's context: at shutdown runBridgeLifecycle passes the session
+  -- manager's (already cancelled) context and the record must go all the same
+  | .remDead n tid => removeWaitingTunnel cfg w n tid
   | .open_ n r => startSourceBridge cfg w n r
   | .endB n tid => endBridge cfg w n tid
   | .adv d => ({ w with wall := w.wall + d, rclk := w.rclk + d }, .skip)
